@@ -281,6 +281,12 @@ impl<H: Hasher> MerkleTree<H> {
         index: usize,
         proof: &[H::Digest],
     ) -> Result<(), MerkleTreeError> {
+        // a path consists of the leaf, its sibling and one node per remaining level; anything
+        // shorter cannot be an opening, and 2^(len - 1) below must be representable
+        if proof.len() < 2 || proof.len() > usize::BITS as usize {
+            return Err(MerkleTreeError::InvalidProof);
+        }
+
         let r = index & 1;
         let mut v = H::merge(&[proof[r], proof[1 - r]]);
 
